@@ -199,15 +199,13 @@ int reb_get_rootbox_for_particle(const struct reb_simulation* const r, struct re
 
 int reb_simulation_particle_index(struct reb_particle* p){
 	struct reb_simulation* r = p->sim;
-	int i = 0;
 	const int N = r->N;
-	while(&r->particles[i] != p){
-		i++;
-		if(i>=N){
-			return -1;	// p not in simulation.  Shouldn't happen unless you mess with p.sim after creating the particle
-		}	
+	for(int i=0; i<N; i++){
+		if(&r->particles[i] == p){
+			return i;
+		}
 	}
-	return i;
+	return -1;	// p not in simulation.  Shouldn't happen unless you mess with p.sim after creating the particle
 }
 
 static struct reb_particle* reb_search_lookup_table(struct reb_simulation* const r, uint32_t hash){
